@@ -1285,6 +1285,7 @@ class DB:
         self._normalize_flag_enums()
         self._desugar_std_combinators()
         self.inlined = []
+        self.ctor_inlined = []
         if inline:
             self._inline_private_helpers(inline)
 
@@ -1592,6 +1593,18 @@ class DB:
                 if still_called:
                     break
             if not still_called:
+                if g.raw.get("is_async") and any(q == gid for _o, q in self.ctor_inlined):
+                    # only the creation of the helper's future was spliced in: its body lives on as an async block of the
+                    # (single) body that creates it
+                    owners = set(o for o, q in self.inlined if q == gid)
+                    if len(owners) != 1:
+                        continue
+                    for x in self.fns.values():
+                        if getattr(x, "parent", None) == gid:
+                            x.parent = list(owners)[0]
+                    self.fns.pop(gid, None)
+                    self.removed_helpers = getattr(self, "removed_helpers", []) + [gid]
+                    continue
                 if g.raw.get("is_async"):
                     # the coroutine body goes with its async fn; closures / async blocks nested in it now belong to the body
                     # it was spliced into (if that is a single one)
